@@ -339,5 +339,5 @@ def parts(tier):
     return [
         Part("table", check_row, cases=table_cases, exhaustive=True),
         Part("helpers", check_helper, cases=helper_cases, exhaustive=True),
-        Part("streams", check_stream, strategy=stream_case(), examples=(150, 2500)),
+        Part("streams", check_stream, strategy=stream_case(), examples=(150, 12000)),
     ]
